@@ -184,25 +184,27 @@ impl Client {
         self.inbox.0.lock().unwrap().msgs.len()
     }
 
-    fn frame(&mut self, cmd: &str, args: J) -> Vec<u8> {
+    fn frame(&mut self, cmd: &str, args: J, seen: usize) -> Vec<u8> {
         self.seq += 1;
         let req = json!({"seq": self.seq, "type": "request", "command": cmd, "arguments": args});
         let body = req.to_string();
-        let seen = self.seen();
         self.sent.push((seen, req));
         format!("Content-Length: {}\r\n\r\n{}", body.len(), body).into_bytes()
     }
 
-    /// One write syscall for all the given requests.
-    fn send_many(&mut self, reqs: &[(String, J)]) -> bool {
+    /// One write syscall for all the given requests.  Returns how many wire messages the client had seen when it
+    /// sent them (one value for the whole write: the client's knowledge at that moment), or None if stdin is gone.
+    fn send_many(&mut self, reqs: &[(String, J)]) -> Option<usize> {
+        let seen = self.seen();
         let mut bytes = Vec::new();
         for (c, a) in reqs {
-            bytes.extend(self.frame(c, a.clone()));
+            bytes.extend(self.frame(c, a.clone(), seen));
         }
-        match self.stdin.as_mut() {
+        let ok = match self.stdin.as_mut() {
             Some(s) => s.write_all(&bytes).and_then(|_| s.flush()).is_ok(),
             None => false,
-        }
+        };
+        ok.then_some(seen)
     }
 
     /// Wait until `pred(inbox)` holds, the stream ends, or the deadline passes.
@@ -459,13 +461,17 @@ impl Exec {
             return;
         }
         let reqs = std::mem::take(&mut self.batch);
-        if reqs.iter().any(|(c, _)| is_resume(c)) {
-            self.resume_at = self.c.seen();
-        }
-        if !self.c.send_many(&reqs) {
-            self.wedged = true;
-            let seen = self.c.seen();
-            self.c.sent.push((seen, json!({"a": "Wedge", "what": "stdin-closed"})));
+        match self.c.send_many(&reqs) {
+            Some(seen) => {
+                if reqs.iter().any(|(c, _)| is_resume(c)) {
+                    self.resume_at = seen; // the same count the Send events carry: view and trace cannot disagree
+                }
+            }
+            None => {
+                self.wedged = true;
+                let seen = self.c.seen();
+                self.c.sent.push((seen, json!({"a": "Wedge", "what": "stdin-closed"})));
+            }
         }
     }
 
